@@ -17,7 +17,11 @@ pub struct AtomicStorageWithHistogram;
 
 #[cfg(feature = "metrics-rs-024")]
 mod impls_024 {
+    #[cfg(not(metrique_verif_loom))]
     use std::sync::{Arc, atomic::AtomicU64};
+    // verification builds only: counters and gauges live on scheduler-visible atomics
+    #[cfg(metrique_verif_loom)]
+    use {crate::verif_atomic::VAtomicU64 as AtomicU64, std::sync::Arc};
 
     use metrics_024::{
         Counter, Gauge, Histogram, Key, KeyName, Metadata, Recorder, SharedString, Unit,
